@@ -32,6 +32,8 @@ type Stats struct {
 	Errors   int
 	Seconds  float64
 	MaxQuery float64
+	ValueSeconds float64
+	ValueCalls int
 }
 
 // Solver wraps one solver process.
@@ -80,7 +82,7 @@ func New(kind string, timeoutMs int) (*Solver, error) {
 	}
 	s := &Solver{cmd: cmd, in: in, out: bufio.NewReaderSize(outp, 1<<16), P: term.NewPrinter(), Kind: kind, tmoMs: timeoutMs}
 	s.levelText = []string{""}
-	s.send("(set-option :global-declarations true)\n(set-option :produce-models true)\n")
+	s.send("(set-option :produce-models true)\n")
 	if kind == "cvc5" {
 		s.send("(set-logic ALL)\n")
 	}
@@ -141,12 +143,14 @@ func (s *Solver) sync() (lines []string, hadErr bool) {
 func (s *Solver) Push() {
 	s.send("(push 1)\n")
 	s.Level++
+	s.P.PushLevel()
 	s.levelText = append(s.levelText, "")
 }
 
 func (s *Solver) PopTo(level int) {
 	if level < s.Level {
 		s.send(fmt.Sprintf("(pop %d)\n", s.Level-level))
+		s.P.PopLevels(s.Level - level)
 		s.Level = level
 		s.levelText = s.levelText[:level+1]
 	}
@@ -156,7 +160,7 @@ func (s *Solver) flushDefs() {
 	d := s.P.Flush()
 	if d != "" {
 		s.send(d)
-		s.declText.WriteString(d)
+		s.levelText[s.Level] += d
 	}
 }
 
@@ -241,6 +245,8 @@ func (s *Solver) dump(cmd string, res Result) {
 
 // Values fetches model values of the given symbols (after a Sat result, before EndCheck).
 func (s *Solver) Values(syms []*term.T) (map[string]uint64, bool) {
+	t0 := time.Now()
+	defer func() { s.Stats.ValueSeconds += time.Since(t0).Seconds(); s.Stats.ValueCalls++ }()
 	m := map[string]uint64{}
 	var decl []*term.T
 	for _, t := range syms {
